@@ -402,6 +402,15 @@ func (e *specEnv) sel(base specVal, name string) specVal {
 	if base.T == nil {
 		panic(specErr("selector %s on untyped value", name))
 	}
+	if tu, ok := base.T.(*types.Tuple); ok {
+		tv := base.V.(TupleV)
+		for i := 0; i < tu.Len(); i++ {
+			if tu.At(i).Name() == name || fmt.Sprintf("r%d", i) == name {
+				return specVal{V: tv.E[i], T: tu.At(i).Type()}
+			}
+		}
+		panic(specErr("no result %s in %s", name, tu))
+	}
 	obj, path, _ := types.LookupFieldOrMethod(base.T, true, nil, name)
 	if obj == nil {
 		// unexported field: need the package
@@ -728,6 +737,27 @@ func (e *specEnv) quant(q SQuant) specVal {
 		res = fmt.Sprintf("(forall ((%s %s)) (=> %s %s))", sym(name), sort, rng.S, bodyS)
 	} else {
 		res = fmt.Sprintf("(exists ((%s %s)) (and %s %s))", sym(name), sort, rng.S, bodyS)
+	}
+	// ground instances at the index terms the code uses: logically redundant (forall k. P  ==  forall k. P /\ P[t],
+	// exists k. P  ==  exists k. P \/ P[t]) but they spare the solvers the arithmetic E-matching they are bad at
+	if sort == SInt && q.VarType == nil {
+		var insts []string
+		for _, t := range v.instTerms() {
+			b := replaceSym(bodyS, sym(name), t.S)
+			r := replaceSym(rng.S, sym(name), t.S)
+			if q.Forall {
+				insts = append(insts, fmt.Sprintf("(=> %s %s)", r, b))
+			} else {
+				insts = append(insts, fmt.Sprintf("(and %s %s)", r, b))
+			}
+		}
+		if len(insts) > 0 {
+			if q.Forall {
+				res = fmt.Sprintf("(and %s %s)", res, strings.Join(insts, " "))
+			} else {
+				res = fmt.Sprintf("(or %s %s)", res, strings.Join(insts, " "))
+			}
+		}
 	}
 	return specVal{V: Sc{Term{res, SBool}}, T: types.Typ[types.Bool]}
 }
